@@ -97,9 +97,13 @@ func New(id, level string) *Run {
 		if b, err := os.ReadFile(r.ReplayPath); err == nil {
 			var w struct {
 				SiteKey string `json:"site_key"`
+				Tier    string `json:"tier"`
 			}
 			if json.Unmarshal(b, &w) == nil {
 				r.replaySite = w.SiteKey
+				if w.Tier == "quick" || w.Tier == "thorough" {
+					r.Tier = w.Tier // the enumeration that found it
+				}
 			}
 		}
 	}
